@@ -246,7 +246,8 @@ class C11(Prop):
         "plot_accounts_for_data", "plot_survival_accounts_for_data", "plot_qq_in_bounds", "declare_rounding_keeps_the_data",
         # round 6
         "sxp_objective_is_neg_loglik", "sxp_rate_is_maximiser", "sxp_rate_closed_form", "weibull_binned_objective_is_neg_loglik", "weibull_cdf_is_distribution_function",
-        "gev_fit_post", "gev_objective_is_neg_loglik", "gev_gradient_is_derivative", "sxp_binned_fit_post", "sxp_binned_objective_is_neg_loglik")]
+        "gev_fit_post", "gev_objective_is_neg_loglik", "gev_gradient_is_derivative", "sxp_binned_fit_post", "sxp_binned_objective_is_neg_loglik",
+        "gamma_shape_likelihood_equation", "gamma_engine_fixed_point_is_stationary_partial", "gev_censored_objective_is_neg_loglik", "sxp_shape_likelihood_equation")]
     claimed = True
     technique = ("Lean 4 proof over an executable line-by-line model (numeric class: Float for the bit-exact differential run, Q/R for the theorems) "
                  "+ bit-exact correspondence with the ASan/UBSan-built C code + exact-rational / log-likelihood property monitors")
@@ -277,7 +278,8 @@ class C11(Prop):
     level_note = ("Residual: binary64 rounding (L0) is not a theorem (values within rounding distance of a bin edge; exp(-lambda*x) under/overflow). "
                   "NOT a theorem: that the conjugate-gradient stopping rule (relative decrease of f below 1e-5) makes the gradient small, so 'the point reached maximises the likelihood' is proved only "
                   "conditionally (Weibull: bounded by the derivatives at the point; stationarity => global maximum); monitored: local pattern search, fit >= generating parameters, recovery on exact "
-                  "quantile grids of every family. Gamma stationarity in tau (digamma; the code uses its own series), stretched-exponential shape in tau and GEV likelihood shape (concavity): not proved. "
+                  "quantile grids of every family. Gamma in tau: the likelihood equation (true digamma, Mathlib Real.Gamma) and 'the engine's update is stationary exactly at a root of its equation' are proved; that esl_stats_Psi/Trigamma "
+                  "equal digamma/trigamma, and concavity of the profile, are not. Stretched-exponential shape in tau and GEV likelihood shape (concavity): not proved. "
                   "esl_sxp_FitCompleteBinned is modelled (esl_sxp_cdf through the model's IncompleteGamma, NaN when it cannot be evaluated - repaired in 8c29128; objective = -sum obs*log(cdf "
                   "differences), documented status/location) and compared exactly. "
                   "Not modelled (monitors only): esl_histogram_Write/Print and the number formatting of the plots, esl_gumbel/esl_exp tail fits. "
@@ -522,6 +524,21 @@ class C11(Prop):
         # esl_sxp_FitCompleteBinned optimised on garbage; now NaN -> eslERANGE with the start point
         c.append({"name": "regress-sxp-cdf-unset", "sticky": 1, "ops": [
             "hnew full=0 bmin=%s bmax=%s w=%s" % (d(0), d(100), d(10)), "hadd xs=" + d(35.0), "hdump", "hsxpfit", "hadd xs=" + d(35.0), "hsxpfit", "hweifit"]})
+        # esl_sxp_cdf() evaluated directly (exact): ordinary points of both branches of the incomplete gamma function, and the parameters for which
+        # it cannot be evaluated (tau = 0, inf, NaN; lambda = inf, NaN): NaN since 8c29128 (it was an uninitialised double)
+        inf, nan = float("inf"), float("nan")
+        pts = [(x, 0.0, lam, tau) for x in (0.0, 1e-9, 0.3, 1.0, 2.5, 10.0, 700.0) for lam in (0.05, 1.0, 3.0) for tau in (0.3, 0.9, 1.0, 2.5)]
+        pts += [(2.0, 0.0, 1.0, 0.0), (2.0, 0.0, 1.0, inf), (2.0, 0.0, 1.0, nan), (2.0, 0.0, inf, 0.9), (2.0, 0.0, nan, 0.9), (nan, 0.0, 1.0, 0.9), (inf, 0.0, 1.0, 0.9),
+                (2.0, 0.0, 1.0, 1e-300), (2.0, 0.0, 1.0, 1e-5), (2.0, 0.0, 1.0, 300.0), (2.0, 5.0, 1.0, 0.0), (2.0, 0.0, 1.0, -1.0), (1e300, 0.0, 1e300, 0.9)]
+        c.append({"name": "sxp-cdf-direct", "sticky": 0, "ops": ["sxpcdf x=%s mu=%s lambda=%s tau=%s" % (d(x), d(m), d(l), d(t)) for (x, m, l, t) in pts]})
+        # gev_func / gev_gradient: the censored-data terms alone (no samples), every branch (|alpha*y| < 1e-12, main, out of support on either side)
+        gops = ["data xs=-"]
+        for al in (1e-14, -1e-13, 0.0, 1e-4, 0.3, -0.2, 5.0, -5.0):
+            for (m0, w0, phi) in ((0.0, 0.0, 1.5), (0.0, 0.0, -1.5), (2.0, 1.0, 2.0), (-1.0, -2.0, 40.0)):
+                gops.append("gevobj p=%s,%s,%s cens=1 z=%d a=%s" % (d(m0), d(w0), d(al), 7, d(phi)))
+        c.append({"name": "gev-censored-terms-alone", "sticky": 1, "ops": gops})
+        c.append({"name": "gev-one-sample-on-mu", "sticky": 1, "ops": ["data xs=" + d(2.0)] + ["gevobj p=%s,%s,%s cens=%d z=3 a=%s" % (d(2.0), d(0.5), d(al), cz, d(1.0))
+                                                                                  for al in (1e-14, 0.0, 0.3, -0.2) for cz in (0, 1)]})
         g = grid("exp", 400, 0.0, 0.5, 1.0)
         c.append({"name": "goodness-exp-grid", "sticky": 1, "ops": [
             "hnew full=1 bmin=%s bmax=%s w=%s" % (d(0.0), d(20.0), d(0.25)), "hadd xs=" + ",".join(d(x) for x in g),
